@@ -325,9 +325,12 @@ def ternaryStep (stoch phase : Bool) (x scale u : Rat) : Rat :=
   let v := scale * roundThrough phase stoch (1 / 3) (x / scale) u
   (if thres ≤ absR v then 1 else 0) * sgn x
 
-/-- `ternary.__call__` with a numeric alpha (activation use): `q = (|x| ≥ thres)*sign(x)` -/
+/-- `ternary.__call__` with a numeric alpha (activation use): `q = (|x| ≥ thres)*k_sign`,
+    `k_sign = sign(x)` with `0 ↦ +1` (so threshold 0 makes the input 0 a positive code, as in
+    `binary`; the first build of this file had plain `sign`, which is what the code did before its
+    threshold-0 repair — the definition was not used by any theorem or comparison then). -/
 def ternaryNumeric (alpha thres x : Rat) : Rat :=
-  alpha * ((if thres ≤ absR x then 1 else 0) * sgn x)
+  alpha * ((if thres ≤ absR x then 1 else 0) * sgn1 x)
 
 /-- `stochastic_binary.__call__`: `smart_cond(phase, stochastic_output, binary.__call__)`;
     `p` = sigmoid(temperature*x/std) (oracle), `r` the draw, `scale` the least-squares scale. -/
@@ -339,6 +342,175 @@ def stochasticBinary (phase : Bool) (alpha x p r : Rat) : Rat :=
     phase 0: `ternary.__call__` (argument `det`). -/
 def stochasticTernaryCode (phase : Bool) (det p0 p1 r0 r1 : Rat) : Rat :=
   if phase then (sgn1 (p0 - r0) + sgn1 (p1 - r1)) / 2 else det
+
+/-! ## constructors and whole-tensor calls of ternary / stochastic_ternary / binary / stochastic_binary
+
+The last clause of the property ("with the training phase off the stochastic binary / ternary
+quantizers return exactly their deterministic counterparts") compares two OBJECTS built from the same
+constructor arguments, so the constructors are part of the model: `ternaryInit`,
+`stochasticTernaryInit`, `binaryInit`, `stochasticBinaryInit` give the attributes the `__call__`s read,
+and `ternaryCall` / `stochasticTernaryCall` are the calls on ONE channel of a tensor of rank > 1
+(a column: `K.max`, `K.mean` reduce over it), including the `for _ in range(number_of_unrolls)`
+scale / threshold iteration of the `alpha = "auto" / "auto_po2"` branch. -/
+
+/-- the `alpha` argument of binary / ternary / stochastic_* -/
+inductive Alpha where
+  | none
+  | num (a : Rat)
+  | auto
+  | autoPo2
+  deriving DecidableEq, Repr
+
+def Alpha.isAuto : Alpha → Bool
+  | .auto => true
+  | .autoPo2 => true
+  | _ => false
+
+/-- attributes of a `ternary` object that `ternary.__call__` reads -/
+structure TernObj where
+  alpha : Alpha
+  threshold : Option Rat
+  stoch : Bool          -- use_stochastic_rounding
+  unrolls : Nat         -- number_of_unrolls
+  deriving DecidableEq, Repr
+
+/-- `ternary.__init__(alpha, threshold, use_stochastic_rounding, number_of_unrolls)` -/
+def ternaryInit (alpha : Alpha) (threshold : Option Rat) (stoch : Bool) (unrolls : Nat) : TernObj :=
+  { alpha := alpha, threshold := threshold, stoch := stoch, unrolls := unrolls }
+
+/-- a `stochastic_ternary` object: the attributes of its base class `ternary` (read by
+    `ternary.__call__(self, x)` at inference and by the scale loop of the training branch) and its own -/
+structure STernObj where
+  base : TernObj
+  temperature : Rat
+  realSigmoid : Bool
+  deriving DecidableEq, Repr
+
+/-- `stochastic_ternary.__init__(alpha, threshold, temperature, use_real_sigmoid, number_of_unrolls)`:
+    `super().__init__(alpha=alpha, threshold=threshold, number_of_unrolls=number_of_unrolls)` (so
+    `use_stochastic_rounding` keeps ternary's default `False`), then the re-assignments. -/
+def stochasticTernaryInit (alpha : Alpha) (threshold : Option Rat) (temperature : Rat)
+    (realSigmoid : Bool) (unrolls : Nat) : STernObj :=
+  let b := ternaryInit alpha threshold false unrolls
+  { base := { b with alpha := alpha, threshold := threshold, unrolls := unrolls },
+    temperature := temperature, realSigmoid := realSigmoid }
+
+/-- attributes of a `binary` object read by the element-wise part of `binary.__call__`
+    (the scale-shape options `scale_axis`, `elements_per_scale`, `min/max_po2_exponent` only enter
+    the least-squares scale, which is outside the model) -/
+structure BinObj where
+  use01 : Bool
+  alpha : Alpha
+  stoch : Bool
+  deriving DecidableEq, Repr
+
+/-- `binary.__init__(use_01, alpha, use_stochastic_rounding, ...)` -/
+def binaryInit (use01 : Bool) (alpha : Alpha) (stoch : Bool) : BinObj :=
+  { use01 := use01, alpha := alpha, stoch := stoch }
+
+structure SBinObj where
+  base : BinObj
+  temperature : Rat
+  realSigmoid : Bool
+  deriving DecidableEq, Repr
+
+/-- `stochastic_binary.__init__(alpha, temperature, use_real_sigmoid)`: `super().__init__(alpha=alpha)` -/
+def stochasticBinaryInit (alpha : Alpha) (temperature : Rat) (realSigmoid : Bool) : SBinObj :=
+  { base := binaryInit false alpha false, temperature := temperature, realSigmoid := realSigmoid }
+
+def sumR (l : List Rat) : Rat := l.foldr (· + ·) 0
+/-- `K.mean` over the reduction axes of one channel -/
+def meanR (l : List Rat) : Rat := sumR l / (l.length : Rat)
+/-- `K.max(tf.abs(x))` over the reduction axes of one channel -/
+def maxAbs (l : List Rat) : Rat := l.foldr (fun x a => if a < absR x then absR x else a) 0
+
+/-- `2^round(log2(s + eps))` of the "auto_po2" branches -/
+def po2Round (s : Rat) : Rat := pow2 (roundLog2 (s + epsK))
+
+/-- `_get_least_squares_scale(alpha, x, q)` for alpha "auto" / "auto_po2", one channel of a tensor of
+    rank > 1: `qx/(qq + eps)` with `qx = mean(x*q)`, `qq = mean(q*q)`; "auto_po2" rounds it to a
+    power of two. -/
+def lsScale (po2 : Bool) (xs qs : List Rat) : Rat :=
+  let qx := meanR (List.zipWith (· * ·) xs qs)
+  let qq := meanR (List.zipWith (· * ·) qs qs)
+  let s := qx / (qq + epsK)
+  if po2 then po2Round s else s
+
+/-- start of the iteration: `m = K.max|x|; scale = 2*m/3` (rounded to a power of two for "auto_po2") -/
+def ternStart (po2 : Bool) (xs : List Rat) : Rat :=
+  let s := 2 * maxAbs xs / 3
+  if po2 then po2Round s else s
+
+/-- the codes of one loop iteration with the current `scale` (`us`: the draw tensor of this
+    iteration's `_round_through`; missing draws read as 0) -/
+def ternCodes (stoch phase : Bool) (xs : List Rat) (scale : Rat) (us : List Rat) : List Rat :=
+  (List.range xs.length).map fun i => ternaryStep stoch phase (xs.getD i 0) scale (us.getD i 0)
+
+/-- `for _ in range(number_of_unrolls): ... q = ...; scale = _get_least_squares_scale(alpha, x, q)`;
+    `draws`: one draw tensor per iteration, in order.  Returns `(q, scale)` after the loop. -/
+def ternLoop (po2 stoch phase : Bool) (xs : List Rat) :
+    Nat → Rat → List (List Rat) → List Rat → List Rat × Rat
+  | 0, scale, _, q => (q, scale)
+  | n + 1, scale, draws, _ =>
+    let q := ternCodes stoch phase xs scale (draws.headD [])
+    ternLoop po2 stoch phase xs n (lsScale po2 xs q) draws.tail q
+
+/-- float32(0.33), `default_threshold` as the comparison `tf.abs(x) >= thres` sees it -/
+def defaultThreshold : Rat := (11072963 : Rat) / 33554432
+
+/-- `ternary.__call__(x)` on one channel (forward value `scale * q`; `none` = the call raises:
+    the asserts of the two branches, and `number_of_unrolls = 0` leaves `q` unbound).
+    alpha `None` returns `tanh(x) + (-tanh(x) + q)`; its exact value is the code `q`. -/
+def ternaryCall (o : TernObj) (phase : Bool) (xs : List Rat) (draws : List (List Rat)) :
+    Option (List Rat) :=
+  match o.alpha with
+  | .auto | .autoPo2 =>
+    if o.threshold.isSome then none
+    else if o.unrolls = 0 then none
+    else
+      let po2 := decide (o.alpha = .autoPo2)
+      let r := ternLoop po2 o.stoch phase xs o.unrolls (ternStart po2 xs) draws []
+      some (r.1.map fun q => r.2 * q)
+  | .none =>
+    if o.stoch then none
+    else some (xs.map fun x => ternaryNumeric 1 (o.threshold.getD defaultThreshold) x)
+  | .num a =>
+    if o.stoch then none
+    else some (xs.map fun x => ternaryNumeric a (o.threshold.getD defaultThreshold) x)
+
+/-- `stochastic_ternary.__call__(x)` on one channel:
+    `smart_cond(K.learning_phase(), stochastic_output, lambda: ternary.__call__(self, x))`.
+    Training (alpha "auto*" only, else the assert fires): `scale * (q0 + q1)/2` with the sampling
+    step `stochasticTernaryCode`; `p0 p1` the sigmoid values (oracle), `r0 r1` the draws, `scale`
+    the result of the training branch's own scale loop (oracle argument). -/
+def stochasticTernaryCall (o : STernObj) (phase : Bool) (xs : List Rat) (scale : Rat)
+    (p0 p1 r0 r1 : List Rat) : Option (List Rat) :=
+  if phase then
+    if o.base.alpha.isAuto then
+      some ((List.range xs.length).map fun i =>
+        scale * stochasticTernaryCode true 0 (p0.getD i 0) (p1.getD i 0) (r0.getD i 0) (r1.getD i 0))
+    else none
+  else ternaryCall o.base false xs []
+
+/-- the element-wise part of `binary.__call__` for a numeric / absent alpha (`scale = alpha`, 1 for
+    `None`); "auto*" scales are outside the model (`none`) -/
+def binaryCall (o : BinObj) (phase : Bool) (xs ms u1 u2 : List Rat) : Option (List Rat) :=
+  let go (a : Rat) := some ((List.range xs.length).map fun i =>
+    binaryQ o.use01 o.stoch phase a (xs.getD i 0) (ms.getD i 0) (u1.getD i 0) (u2.getD i 0))
+  match o.alpha with
+  | .none => go 1
+  | .num a => go a
+  | _ => none
+
+/-- `stochastic_binary.__call__`, numeric / absent alpha:
+    `smart_cond(K.learning_phase(), stochastic_output, lambda: binary.__call__(self, x))` -/
+def stochasticBinaryCall (o : SBinObj) (phase : Bool) (xs ps rs : List Rat) : Option (List Rat) :=
+  if phase then
+    match o.base.alpha with
+    | .none => some ((List.range xs.length).map fun i => stochasticBinary true 1 (xs.getD i 0) (ps.getD i 0) (rs.getD i 0))
+    | .num a => some ((List.range xs.length).map fun i => stochasticBinary true a (xs.getD i 0) (ps.getD i 0) (rs.getD i 0))
+    | _ => none
+  else binaryCall o.base false xs [] [] []
 
 /-! ## the property's reference notions (used by the clause oracle and by Props/C08.lean)
 
